@@ -202,9 +202,8 @@ Section Html.
     match indent with
     | None => hserialize_go cdata (hser_new z) (gen_outputs nm z) s_doctype
     | Some suppress =>
-        hserialize_pretty_go cdata
-          (fun name => html_matches formatted_names name || html_matches_suppress suppress name)
-          is_inline (hser_new z) [] (gen_outputs nm z) s_doctype
+        let is_sup := fun name => html_matches formatted_names name || html_matches_suppress suppress name in
+        hserialize_pretty_go cdata is_sup is_inline (hser_new z) (seed_context nm is_sup is_inline z) (gen_outputs nm z) s_doctype
     end.
 End Html.
 
